@@ -8,7 +8,8 @@ mkdir -p bin evidence replays .cache
 cp -f /repo/go.sum go.sum
 (cd tools/rewrite && go build -o /verif/bin/rewrite .) || { echo "setup: cannot build rewriter" >&2; exit 1; }
 fail=0
-ids=$(ls checks | grep -E '^c[0-9]+$' | tr 'a-z' 'A-Z')
+# only the checks claimed in MANIFEST.json
+ids=$(python3 -c "import json;print(' '.join(c['property_id'] for c in json.load(open('/verif/MANIFEST.json'))['checks']))")
 # first one serially (creates the overlay), the rest in parallel
 first=1
 for id in $ids; do
